@@ -32,6 +32,9 @@ SNAPS = (0.1, 1.e-3)
 BIG = 1.e50
 
 
+SCRATCH = ['/var/tmp']      # main() puts its own scratch directory here (inherited by the forked workers)
+
+
 class CaseTimeout(Exception):
     pass
 
@@ -525,7 +528,7 @@ def run_case(p):
     """Returns (failures, evaluation counts per contract, descriptors, sample)."""
     fails, counts, desc = [], dict((c, 0) for c in CONTRACTS), []
     sample = None
-    tmpdir = tempfile.mkdtemp(prefix='pytough-', dir='/var/tmp')
+    tmpdir = tempfile.mkdtemp(prefix='task-', dir=SCRATCH[0])
     signal.signal(signal.SIGALRM, _alarm)
     signal.alarm(CASE_TIMEOUT)
     stage = 'setup'
@@ -622,6 +625,8 @@ def run_case(p):
 
 def main():
     t0 = time.time()
+    SCRATCH[0] = tempfile.mkdtemp(prefix='pytough-', dir='/var/tmp')
+    signal.signal(signal.SIGTERM, lambda *a: sys.exit(1))      # so that the scratch directory goes even when killed
     rnd = random.Random(seed)
     cases = [gen_case(rnd, i) for i in range(NCASES)]
     nproc = min(16, os.cpu_count() or 1)
@@ -635,6 +640,7 @@ def main():
             if sample is not None and len(samples) < 4: samples.append(sample)
     finally:
         pool.terminate(); pool.join()
+        shutil.rmtree(SCRATCH[0], ignore_errors=True)
     # at most 60 are printed: smallest reproduction of every class first, then the second smallest of every class, ...
     def klass(f):
         i = f['input']
